@@ -81,3 +81,77 @@ Qed.
 (** The number of component cells is len * columns: nothing is stored twice, nothing is missing. *)
 Lemma cells_count s : Inv s -> Forall (fun c => length c = len s) (cols s).
 Proof. exact (i_lcols s). Qed.
+
+(* ---------------------------------------------------------------- configurations (C19) *)
+
+Definition with_events (cfg : config) (b : bool) : config := Config (wrapping cfg) b (debug cfg).
+Definition with_debug (cfg : config) (b : bool) : config := Config (wrapping cfg) (events cfg) b.
+
+(** The events feature only adds the logs: erasing them from a state produced with the feature on
+    gives the state produced with it off. *)
+Lemma created_state_events_conservative cfg s h x vs :
+  clear_events (created_state (with_events cfg true) s h x vs) = clear_events (created_state (with_events cfg false) s h x vs).
+Proof. done. Qed.
+
+Lemma destroyed_state_events_conservative cfg s si d e le va vs' :
+  clear_events (destroyed_state (with_events cfg true) s si d e le va vs') =
+  clear_events (destroyed_state (with_events cfg false) s si d e le va vs').
+Proof. done. Qed.
+
+Lemma created_state_ignores_logs cfg s h x vs :
+  clear_events (created_state cfg (clear_events s) h x vs) = clear_events (created_state cfg s h x vs).
+Proof. done. Qed.
+
+(** Lookups never read the logs, nor the events flag. *)
+Lemma resolve_entity_ignores_events cfg b s h : resolve_entity (with_events cfg b) (clear_events s) h = resolve_entity cfg s h.
+Proof. done. Qed.
+Lemma resolve_direct_ignores_events cfg b s h : resolve_direct (with_events cfg b) (clear_events s) h = resolve_direct cfg s h.
+Proof. done. Qed.
+
+(** wrapping_version changes nothing below the overflow boundary. *)
+Lemma next_wrapping_conservative v : in_ver v -> (v + 1 < 2^32)%N -> slot_next true v = slot_next false v /\ arch_next true v = arch_next false v.
+Proof.
+  intros Hv Hlt. assert (H : slot_next true v = slot_next false v).
+  { rewrite slot_next_wrapping by done. rewrite slot_next_checked_some by done.
+    destruct (N.eqb_spec v (2^32 - 1)); [lia|done]. }
+  split; [exact H|exact H].
+Qed.
+
+(** Closed form of the slot lookup on an invariant state: debug assertions change exactly one case
+    (a slot index beyond the capacity: clean panic instead of absence) and nothing else. *)
+Lemma resolve_entity_form cfg s h : Inv s -> key32 h ->
+  resolve_entity cfg s h =
+    if len s =? 0 then ROk None
+    else if (N.of_nat (cap s) <=? hslot h)%N then (if debug cfg then RPanic PDebug else ROk None)
+    else match slots s !! N.to_nat (hslot h) with
+         | Some (Slot (Data d) v) => if (v =? snd h)%N then ROk (Some (N.to_nat (hslot h), d)) else ROk None
+         | _ => ROk None
+         end.
+Proof.
+  intros HI Hk. pose proof (i_le s HI) as Hle. pose proof (hslot_lt h Hk) as Hs24.
+  unfold resolve_entity.
+  assert ((len s <=? cap s) = true) as -> by (apply Nat.leb_le; done). rewrite andb_false_r.
+  unfold re_guard_empty. destruct (Nat.eqb_spec (len s) 0) as [E0|E0].
+  { destruct (N.eqb_spec (N.of_nat (len s)) 0); [done|lia]. }
+  destruct (N.eqb_spec (N.of_nat (len s)) 0); [lia|].
+  assert (trimmed_ok_u32 (hslot h) = true) as -> by (by apply trimmed_ok_spec). cbn [negb].
+  unfold re_guard_oob. destruct (N.leb_spec (N.of_nat (cap s)) (hslot h)) as [Hoob|Hin]; [done|].
+  assert (Hlt : N.to_nat (hslot h) < length (slots s)) by (rewrite (i_lslots s HI); lia).
+  destruct (lookup_lt_is_Some_2 _ _ Hlt) as [[ix v] Hx]. rewrite Hx. cbn [s_ver s_idx].
+  unfold re_guard_stale, neqb. destruct (N.eqb_spec v (snd h)) as [Hv|Hv]; cbn [negb orb].
+  2: { by destruct ix. }
+  destruct ix as [d| |]; cbn [sidx_is_free]; [|done|done].
+  destruct (bwd' s _ _ d HI Hx eq_refl) as (e & He & Hes & Hev). cbn [s_ver] in Hev.
+  destruct (fwd' s d e HI He) as (_ & _ & _ & Hdl & Hhe).
+  assert (Hh : hslot e = hslot h) by (rewrite Hhe, Hes; lia).
+  assert ((d <? len s) = true) as -> by (apply Nat.ltb_lt; done). cbn [negb].
+  rewrite He, Hh, N.eqb_refl. rewrite Hev, Hv, N.eqb_refl. cbn [negb orb]. by destruct (debug cfg).
+Qed.
+
+Lemma resolve_entity_debug_conservative cfg s h : Inv s -> key32 h ->
+  resolve_entity (with_debug cfg true) s h <> RPanic PDebug ->
+  resolve_entity (with_debug cfg true) s h = resolve_entity (with_debug cfg false) s h.
+Proof.
+  intros HI Hk Hn. rewrite !(resolve_entity_form _ s h HI Hk) in *. cbn [debug with_debug] in *.
+  destruct (len s =? 0); [done|]. destruct (N.leb (N.of_nat (cap s)) (hslot h)); [done|done].
+Qed.
